@@ -136,12 +136,20 @@ func c02Judge(c *core.Ctx, in []byte, section string, distinctByInput bool) {
 	c.Eval(1)
 	rm, why := ref.Parse(in)
 	m := new(stun.Message)
-	if gen.HashBytes(in)%3 == 0 {
+	if gen.HashBytes(in)%3 == 0 || gen.HashBytes(in)%5 == 1 {
 		// a destination that already reported another message's attribute list
 		_ = stun.Decode(c02Previous, m)
 	}
 	var err error
-	if p, stack := safely(func() { err = stun.Decode(in, m) }); p != nil {
+	inPlace := gen.HashBytes(in)%5 == 1
+	if p, stack := safely(func() {
+		if inPlace {
+			m.Raw = append([]byte(nil), in...) // the caller fills Raw itself and calls the method (what ReadFrom does)
+			err = m.Decode()
+		} else {
+			err = stun.Decode(in, m)
+		}
+	}); p != nil {
 		reportPanic(c, "Decode", p, stack, map[string]interface{}{"input_hex": core.Hex(in)})
 
 		return
